@@ -97,6 +97,11 @@ def generated_structures(rng, n):
                 b.anisotropy = True
                 u = numpy.array([[0.01, 0.001, 0.002], [0.001, 0.02, -0.001], [0.002, -0.001, 0.03]]) * rng.uniform(0.5, 2)
                 b.U = numpy.round(u, 6)
+                if i % 2 == 0:
+                    # standard deviations: the pdb writer then emits SIGATM / SIGUIJ records, pdffit writes them too
+                    b.sigxyz = numpy.array([0.001, 0.002, 0.003])
+                    b.sigo = 0.01
+                    b.sigU = numpy.round(u / 10.0, 6)
         out.append(s)
     return out
 
@@ -118,7 +123,7 @@ def valid_documents(rng, tier, max_atoms=None):
     docs = []
     td = os.path.join(repo_root(), "tests", "testdata")
     if max_atoms is None:
-        max_atoms = 12 if tier == "quick" else 40
+        max_atoms = 12 if tier == "quick" else 25
     for fmt, names in TESTDATA_BY_FORMAT.items():
         for nm in names:
             p = os.path.join(td, nm)
@@ -126,8 +131,6 @@ def valid_documents(rng, tier, max_atoms=None):
                 continue
             text = open(p, encoding="utf-8", errors="replace").read()
             docs.append((fmt, nm, _shorten(fmt, text, max_atoms)))
-            if tier == "thorough" and fmt in ("xcfg",):
-                docs.append((fmt, nm + ":full", text))
     nstru = 3 if tier == "quick" else 9
     for k, s in enumerate(generated_structures(rng, nstru)):
         for fmt, text in write_all(s).items():
